@@ -460,7 +460,7 @@ func checkFile(inner string, fc FileCase) (string, string) {
 // ------------------------------------------------------------------ generation / legs
 
 var helperKinds = []string{"sub", "openfile", "create", "mkdir", "mkdirall", "mkdirall", "remove", "removeall", "removeall", "rename", "stat", "lstat",
-	"lstatorstat", "chmod", "chown", "chtimes", "readdir", "readfile", "writefile", "writefile", "symlink"}
+	"lstatorstat", "chmod", "chown", "chownids", "chtimes", "readdir", "readfile", "writefile", "writefile", "symlink"}
 
 func genCase(t *rapid.T, inner string) Case {
 	c := Case{Inner: inner}
